@@ -6,6 +6,7 @@ import M3d.Lemmas.TriMono
 import M3d.Lemmas.TriScale
 import M3d.Lemmas.TriWinding
 import M3d.Lemmas.TriProfileMfd
+import M3d.Lemmas.TriPlace
 import M3d.Lemmas.Surface
 /-!
 # C14 — triangulation covers the polygon exactly
@@ -155,6 +156,79 @@ example :
     certOk (fun i => scaleP (1 / 1048576) (c i)) 4 true (loopEdges [4]) [(0, 1, 2), (0, 2, 3)] = true ∧
     certOk (fun i => scaleP (1 / 1048576) (c i)) 4 true (loopEdges [4]) [(0, 1, 2), (0, 3, 2)] = false ∧
     certOk (fun i => simMap (3 / 5) (4 / 5) 7 (-2) (c i)) 4 true (loopEdges [4]) [(0, 1, 2), (0, 2, 3)] = true := by
+  decide +kernel
+
+/-- **`cert_placement_invariant`** ("any rigid placement": what the driver uses for op lines with
+a far placement `O e f` and/or a unit `S k`: the Go code was given the points `k·(p + (e,f))` —
+`placeP k e f p` — for the written points `p`, the checker is run on the written points).  For every
+translation vector `(e,f)` (however large compared with the polygon) and every factor `k ≠ 0`:
+
+* `certOk` / the tolerant `edgesOkG` give the same verdict on the placed coordinate table
+  `i ↦ placeP k e f (c i)` as on `c`;
+* that table is the coordinate table of the placed point list at every vertex id (`i < length`; ids
+  beyond are not vertices: the checker rejects triangles that use them);
+* the shoelace area of every closed polygon is multiplied by `k²` and does not depend on `(e,f)`
+  at all (the printed area), every orientation determinant likewise;
+* `isClockwise` — the model of `isPolygonClockwise`, which decides which vertices `isVertexEar`
+  treats as convex and how `triangulateMonotoneMesh` orients its fan triangles — gives the same
+  answer for the placed polygon as for the written one.
+
+So an implementation whose triangulation of `P + v` is not the translate of a valid triangulation
+of `P` violates the property at `P + v`. -/
+theorem cert_placement_invariant (k e f : K) (hk : k ≠ 0) (c : Nat → P2 K) (nv : Nat) (cw : Bool)
+    (bnd : List Edge) (tris : List Tri) :
+    certOk (fun i => placeP k e f (c i)) nv cw bnd tris = certOk c nv cw bnd tris ∧
+    (∀ strict, edgesOkG strict (fun i => placeP k e f (c i)) nv cw bnd tris = edgesOkG strict c nv cw bnd tris) ∧
+    (∀ (l : List (P2 K)) (i : Nat), i < l.length →
+      (l.map (placeP k e f)).getD i ⟨0, 0⟩ = placeP k e f (l.getD i ⟨0, 0⟩)) ∧
+    (∀ l : List (P2 K), shoelace2 (l.map (placeP k e f)) = k * k * shoelace2 l) ∧
+    (∀ p q r : P2 K, orient (placeP k e f p) (placeP k e f q) (placeP k e f r) = k * k * orient p q r) ∧
+    (∀ l : List (P2 K), isClockwise (l.map (placeP k e f)) = isClockwise l) := by
+  have hf : (fun i => placeP k e f (c i)) = fun i => simMap k 0 (k * e) (k * f) (c i) := by
+    funext i; exact placeP_eq_simMap k e f (c i)
+  refine ⟨?_, ?_, ?_, shoelace2_placeP k e f, ?_, isClockwise_placeP k e f hk⟩
+  · rw [hf, certOk_simMap (Or.inl hk)]
+  · intro strict; rw [hf, edgesOkG_simMap (Or.inl hk)]
+  · intro l i hi; simp [List.getD, hi]
+  · intro p q r
+    rw [placeP_eq_simMap, placeP_eq_simMap, placeP_eq_simMap, orient_simMap]; ring
+
+/-- Non-vacuity: the unit square placed at `(123456789, −987654321)` (offset/size ≈ 1e9) in units
+of 2⁻¹⁰: same verdicts as at the origin for the valid and for the invalid triangle list, and it is
+still clockwise. -/
+example :
+    let l : List (P2 Rat) := [⟨0, 0⟩, ⟨0, 1⟩, ⟨1, 1⟩, ⟨1, 0⟩]
+    let c : Nat → P2 Rat := fun i => l.getD i ⟨0, 0⟩
+    let g : P2 Rat → P2 Rat := placeP (1 / 1024) 123456789 (-987654321)
+    certOk (fun i => g (c i)) 4 true (loopEdges [4]) [(0, 1, 2), (0, 2, 3)] = true ∧
+    certOk (fun i => g (c i)) 4 true (loopEdges [4]) [(0, 1, 2), (0, 3, 2)] = false ∧
+    isClockwise (l.map g) = true ∧ shoelace2 (l.map g) = -2 / 1048576 := by
+  decide +kernel
+
+/-- **`triangulate_translation_equivariant`.**  The faithful model of `model2d.Triangulate`
+(colinear removal, orientation of the polygon, first ear in index order with the exact convexity and
+point-in-ear tests, recursion, both panics) commutes with every translation: for the polygon moved
+by ANY vector `(e,f)` it panics iff it panics for the polygon itself, and otherwise returns the
+same ears in the same order, moved by `(e,f)`.  (Every decision of the Go code is a function of
+coordinate differences — `clockwiseAngle` of `p1−p2, p3−p2`, the matrix of `p1−p2, p3−p2` applied to
+`p−p2`; a version that decides the orientation from ABSOLUTE coordinates is not of this form.)
+This is why the `earseq` / `ear` answers expected at a far placement are the ones at the origin. -/
+theorem triangulate_translation_equivariant (strictDiag : Bool) (e f : K) (fuel : Nat) (poly : List (P2 K)) :
+    triangulate strictDiag fuel (poly.map (translate e f)) =
+      (triangulate strictDiag fuel poly).map (mapTris (translate e f)) ∧
+    isClockwise (poly.map (translate e f)) = isClockwise poly ∧
+    (∀ v, v < poly.length →
+      isVertexEar strictDiag (poly.map (translate e f)) v = isVertexEar strictDiag poly v) :=
+  ⟨triangulate_translate' strictDiag e f fuel poly, isClockwise_translate e f poly,
+    fun v hv => isVertexEar_translate strictDiag e f poly v hv⟩
+
+/-- Non-vacuity: the L-shaped hexagon of size 4 at the origin and at `(10⁹, 10⁹)`: four
+triangles, the same ears. -/
+example :
+    let l : List (P2 Rat) := [⟨0, 0⟩, ⟨4, 0⟩, ⟨4, 2⟩, ⟨2, 2⟩, ⟨2, 4⟩, ⟨0, 4⟩]
+    (triangulate false 7 l).map List.length = some 4 ∧
+    triangulate false 7 (l.map (translate 1000000000 1000000000)) =
+      (triangulate false 7 l).map (mapTris (translate 1000000000 1000000000)) := by
   decide +kernel
 
 /-! ### pointwise: inside, non-overlapping, covering -/
@@ -414,6 +488,29 @@ example :
     vol6 (lift c 0 3) (profileSoup [(0, 1, 2), (0, 2, 3)]) = 18 ∧
     closedManifold (profileSoup [(0, 1, 2), (0, 2, 3)]) = true := by
   decide +kernel
+
+/-- **`profile_vertices_on_caps`.**  In the model of `ProfileMesh` every vertex of the soup is a
+copy of an input vertex of the outline at height exactly `minZ` (even ids) or exactly `maxZ` (odd
+ids), and the top cap and the upper rim of the side walls use the SAME vertex ids — so the same
+`Coord3D` values; over a field "the bottom vertex moved up by `maxZ − minZ`" is that very point
+(`z0 + (z1 − z0) = z1`, which is NOT an identity of float64: an implementation that builds the top
+cap as `bottom + (maxZ − minZ)` while the walls end at `maxZ` leaves the rim open).  This is what
+the `profile` kind compares: a vertex of the real mesh that is neither at `minZ` nor at `maxZ`
+has no id and is reported. -/
+theorem profile_vertices_on_caps (c : Nat → P2 K) (z0 z1 : K) (i : Nat) :
+    ((lift c z0 z1 i).z = z0 ∨ (lift c z0 z1 i).z = z1) ∧
+    (lift c z0 z1 i).x = (c (i / 2)).x ∧ (lift c z0 z1 i).y = (c (i / 2)).y ∧
+    (lift c z0 z1 (bot i)).z = z0 ∧ (lift c z0 z1 (top i)).z = z1 ∧
+    (lift c z0 z1 (top i)).z = (lift c z0 z1 (bot i)).z + (z1 - z0) := by
+  have hb : (bot i) % 2 = 0 := by unfold bot; omega
+  have ht : ¬ (top i) % 2 = 0 := by unfold top; omega
+  refine ⟨?_, rfl, rfl, ?_, ?_, ?_⟩
+  · unfold lift; dsimp only; split
+    · exact Or.inl rfl
+    · exact Or.inr rfl
+  · unfold lift; dsimp only; rw [if_pos hb]
+  · unfold lift; dsimp only; rw [if_neg ht]
+  · unfold lift; dsimp only; rw [if_pos hb, if_neg ht]; ring
 
 /-- **`profile_mesh_edge_manifold`** (universal, from the cap certificate).  If the cap triangles
 `tris` glue to a region with boundary `bnd` (`Glued`: what the certificate checker establishes for
